@@ -398,6 +398,9 @@ def run_property(prop, tier='quick', update_baseline=False, only=None, verbose=F
     # ---- output
     print(f'{prop} [{tier}] functions={len(results)} obligations={ev["coverage"]["obligations"]} '
           f'proved={ev["coverage"]["discharged"]} refuted={len(refuted)} unknown={len(unknown)} '
+          # obligations= leaves out the obligations recorded as known findings, refuted= / unknown= include them:
+          # obligations == proved + (refuted + unknown - known_finding_obligations) on a run without lemmas failing
+          f'known_finding_obligations={len(known_obs)} '
           f'crosscheck={cross} wall={wall:.1f}s')
     if verbose:
         for o in all_obs:
